@@ -36,10 +36,37 @@ def abstract_cost(v):
 
 
 _TRACKS = {}
+_SHARED = {}        # one long-lived HMM object per mode: S, Q and P receive the track, so one model object decodes many tracks
+_REG = {}
+_CALLS = [0]
+
+
+def shared_hmm(mode):
+    from tracklib.algo.dynamics import HMM
+    if mode not in _SHARED:
+        def S(track, k):
+            n, P, Q = _REG[track.tid]
+            return [100 * k + j for j in range(n[k])]
+        if mode == "lik":
+            def Qf(s1, s2, k, track):
+                return lik(_REG[track.tid][2][k][s1 % 100][s2 % 100])
+
+            def Pf(s, y, k, track):
+                return lik(_REG[track.tid][1][k][s % 100])
+            _SHARED[mode] = HMM(S, Qf, Pf)
+        else:
+            def Qf(s1, s2, k, track):
+                return math.log(lik(_REG[track.tid][2][k][s1 % 100][s2 % 100]) + 1e-300)
+
+            def Pf(s, y, k, track):
+                return math.log(lik(_REG[track.tid][1][k][s % 100]) + 1e-300)
+            _SHARED[mode] = HMM(S, Qf, Pf, log=True)
+    return _SHARED[mode]
 
 
 def decode(n, P, Q, mode):
-    """run the real HMM on the model; returns the event fields"""
+    """run the real HMM on the model; returns the event fields.  Every second call goes through a long-lived HMM object
+    shared by all the models this worker decodes (successive tracks with the same and with other numbers of epochs)"""
     from tracklib.algo.dynamics import HMM, MODE_VERBOSE_NONE
     from tracklib.core.track import Track
     from tracklib.core.obs import Obs
@@ -48,10 +75,17 @@ def decode(n, P, Q, mode):
     T = len(n)
     tr = Track([Obs(ENUCoords(float(k), 0.0, 0.0), ObsTime()) for k in range(T)])
     tr.createAnalyticalFeature("obs", list(range(T)))
+    _CALLS[0] += 1
+    reuse = _CALLS[0] % 2 == 0
 
     def S(track, k):
         return [100 * k + j for j in range(n[k])]
-    if mode == "lik":
+    if reuse:
+        tr.tid = "m%d" % _CALLS[0]
+        _REG.clear()
+        _REG[tr.tid] = (n, P, Q)
+        hmm = shared_hmm(mode)
+    elif mode == "lik":
         def Qf(s1, s2, k, track):
             return lik(Q[k][s1 % 100][s2 % 100])
 
@@ -65,7 +99,7 @@ def decode(n, P, Q, mode):
         def Pf(s, y, k, track):
             return math.log(lik(P[k][s % 100]) + 1e-300)
         hmm = HMM(S, Qf, Pf, log=True)
-    e = {"n": n, "P": P, "Q": Q, "mode": mode, "raised": False, "lat": True, "inf": [], "last": [0, 0]}
+    e = {"n": n, "P": P, "Q": Q, "mode": mode, "raised": False, "lat": True, "inf": [], "last": [0, 0], "reuse": reuse}
     try:
         with core.quiet():
             hmm.estimate(tr, "obs", verbose=MODE_VERBOSE_NONE)
